@@ -265,6 +265,9 @@ fn shapes(tier: Tier) -> Vec<Shape> {
     }
 }
 
+/// the operations that matter most for three-operation / three-thread programs
+const MENU_SMALL: [Op; 6] = [Op::GetA0, Op::ScriptGetA0, Op::PushA, Op::PushB, Op::ConcatAB, Op::ScriptEqBA];
+
 fn menu(tier: Tier, shape: &Shape) -> &'static [Op] {
     match tier {
         Tier::Quick => &MENU_QUICK,
@@ -272,7 +275,7 @@ fn menu(tier: Tier, shape: &Shape) -> &'static [Op] {
             if shape.threads == 2 && shape.ops == 2 {
                 &MENU_FULL
             } else {
-                &MENU_QUICK
+                &MENU_SMALL
             }
         }
     }
@@ -285,7 +288,7 @@ fn bound(tier: Tier, shape: &Shape) -> usize {
             if shape.threads == 2 && shape.ops == 2 {
                 usize::MAX
             } else {
-                3
+                2
             }
         }
     }
